@@ -42,7 +42,7 @@ def repo_patterns():
     pats += [re.compile(p) for p in [r"^\$9\$[\S]+$", r"^\$6\$[\S]+$", r"^\$1\$[\S]+\$[\S]+$", r"^[0-9a-fA-F]+$", r"^[01][0-9]([0-9a-fA-F]{2})+$", r"^[0-9]+$",
                                      r"(?:(?<=\D)|(?<=^))(12|123|65000)(?=\D|$)"]]
     pats.append(re.compile("(sea|seattle|lax|attle)", re.I))
-    pats += [re.compile(p) for p in [r"(a|ab)(c|bcd)(d*)", r"(a*)*b", r"(?:x|(y))*z", r"^(a?)*$", r"(\s*)(\S*?)(\s*)$", r"x*", r"(?=(a+))a*b\1"[:9]]]
+    pats += [re.compile(p) for p in [r"(\s)+", r"(\s+)", r"\s*", r",|(;)", r"(a|ab)(c|bcd)(d*)", r"(a*)*b", r"(?:x|(y))*z", r"^(a?)*$", r"(\s*)(\S*?)(\s*)$", r"x*", r"(?=(a+))a*b\1"[:9]]]
     return pats
 
 
@@ -76,6 +76,13 @@ def selftest_sre(item, res):
             if r1 != r2:
                 bad += 1
                 res["notes"].append("SUB DIFF %r on %r: %r vs %r" % (p.pattern[:50], l, r1, r2))
+            s1 = p.split(l)
+            s2 = [x.plain() if isinstance(x, SStr) else x for x in sp.split(SStr.of(l))]
+            f1 = [m.span() for m in p.finditer(l)]
+            f2 = [m.span() for m in sp.finditer(SStr.of(l))]
+            if s1 != s2 or f1 != f2:
+                bad += 1
+                res["notes"].append("SPLIT/FINDITER DIFF %r on %r: %r vs %r" % (p.pattern[:50], l, s1, s2))
             if time.time() - t0 > item.budget_s * 0.8:
                 break
     res["validated"] += n
